@@ -278,5 +278,31 @@ pub fn c18(a: &Args) {
         let cli_line = String::from_utf8_lossy(&c1).lines().collect::<Vec<_>>().join(";");
         if cli_line != String::from_utf8_lossy(&s1).trim_end() { out.fail("cli-vs-stream-sample", &f.text(), &format!("urs -s {seed} -n 7 vs random l 7 s {seed}"), &cli_line, String::from_utf8_lossy(&s1).trim_end()); }
     }
+    // the same for models whose features carry large numbers (127.., 255..): every load gives the same array and the same seeded sample
+    {
+        let mut picked: Vec<GenFile> = Vec::new();
+        let mut r6 = Rng::new(a.seed ^ 0x18);
+        let cfg6 = SpaceCfg { g1_max_n: 3, g1_rate: 0.0, random_d4: if a.thorough() { 60 } else { 12 }, random_c2d: 0, min_n: 3, max_n: 7 };
+        for_each_model(&cfg6, &mut r6, |file, tt| { if matches!(file.fmt, Fmt::D4) && tt.count() >= 2 { picked.push(file.clone()); } });
+        for file in picked {
+            for base in [126u32, 254] {
+                let lines = crate::shifted_props::shift_d4(&file, base);
+                let total = base + file.n;
+                let text = lines.join("\n");
+                let ls = lines.clone();
+                let Ok(mut first) = guarded(move || ddnnife::parser::distribute_building(ls, Some(total), None)) else { continue };
+                let e0 = export_nodes(&first);
+                let s0 = first.uniform_random_sampling(&[], 4, 77);
+                out.eval(Some(format!("{text}|-t {total}|reloads")));
+                out.count("renumbered_reloads", 1);
+                for i in 1..4 {
+                    let ls = lines.clone();
+                    let Ok(mut d) = guarded(move || ddnnife::parser::distribute_building(ls, Some(total), None)) else { continue };
+                    if export_nodes(&d) != e0 { out.fail("reload-node-array-differs", &text, &format!("load #{i} vs load #0 -t {total}"), "a different node array", "the same node array"); break; }
+                    if d.uniform_random_sampling(&[], 4, 77) != s0 { out.fail("reload-sample-differs", &text, &format!("urs n 4 s 77, load #{i} vs load #0 -t {total}"), "another sample", "the same sample"); break; }
+                }
+            }
+        }
+    }
     out.finish("every model of the C01 space (counted: d4 inputs that needed smoothing) loaded 8 (quick) / 20 (thorough) times in one process: exported node arrays must be identical and a seeded sampling request (random A, k, seed) must give the same list on every load; CLI `urs -s SEED -n 7` in three processes and stream `random s SEED` in two processes; the witness of the repaired HashSet-order defect");
 }
